@@ -166,6 +166,32 @@ func monC04(c *Case, tr *Trace) []Violation {
 			add("serve_never_returned", final.Step, "tunnel %d (%s): the serving call never returned", t.Idx, t.Kind)
 		}
 	}
+	// ... and not merely because the harness finally ended everything itself: once the cause has struck and the run has been
+	// drained, the teardown call has returned, Done is closed and the serving call has returned - before the harness's own
+	// teardown (phase "end"). (One-sided carrier breaks reach the other end only then, by construction of the harness.)
+	if endStep, ok := tr.PhaseStart["end"]; ok && er.Fired >= 0 && er.Fired < endStep && ev.Kind != "break_client" && ev.Kind != "break_server" &&
+		!(ev.Kind == "expire_open" && tr.Labels["advance_skipped"] > 0) && !parkArmed(c) {
+		if er.Returned >= endStep || er.PendingAtEnd {
+			add("teardown_call_never_returned", er.Fired, "%s fired at step %d had not returned when the drained run reached its end (step %d); it returned only during the harness's own teardown", ev.Kind, er.Fired, endStep)
+		}
+		for _, t := range tr.Tunnels {
+			if !t.Opened || t.Kind == "nested" {
+				continue
+			}
+			if strings.HasPrefix(c.Cfg.Dir, "nested") && ev.Target != t.Idx {
+				continue
+			}
+			if t.Idx != ev.Target && len(c.Cfg.Tunnels) > 1 {
+				continue
+			}
+			if t.DoneStep >= endStep {
+				add("done_not_closed", endStep, "tunnel %d (%s): Done() of the RPC-initiating end was still open when the drained run reached its end (step %d), long after %s", t.Idx, t.Kind, endStep, ev.Kind)
+			}
+			if t.ServeReturned >= endStep {
+				add("serve_never_returned", endStep, "tunnel %d (%s): the serving call had not returned when the drained run reached its end (step %d), long after %s", t.Idx, t.Kind, endStep, ev.Kind)
+			}
+		}
+	}
 	if er.Fired < 0 {
 		// the fault never struck: the tunnel was ended cleanly by the harness at the end
 		gracefulFired := false
